@@ -1,4 +1,4 @@
-// Package vudp replaces github.com/pion/transport/v2/udp in rewritten files.
+// Package vudp replaces github.com/pion/transport/v{2,3,4}/udp in rewritten files.
 package vudp
 
 import (
@@ -10,4 +10,35 @@ import (
 // Listen goes to the scenario's listen hook.
 func Listen(network string, laddr *net.UDPAddr) (net.Listener, error) {
 	return vnet.Listen(network, laddr.String())
+}
+
+// BatchIOConfig mirrors the pion type (no effect on the fakes).
+type BatchIOConfig struct {
+	Enable             bool
+	ReadBatchSize      int
+	WriteBatchSize     int
+	WriteBatchInterval int64
+}
+
+// ListenConfig mirrors udp.ListenConfig: the accept filter is honoured by the fake listener, the
+// sizes have no effect.
+type ListenConfig struct {
+	Backlog         int
+	AcceptFilter    func([]byte) bool
+	ReadBufferSize  int
+	WriteBufferSize int
+	Batch           BatchIOConfig
+	LoggerFactory   any
+}
+
+// Listen goes to the scenario's listen hook.
+func (lc *ListenConfig) Listen(network string, laddr *net.UDPAddr) (net.Listener, error) {
+	l, err := vnet.Listen(network, laddr.String())
+	if err != nil {
+		return nil, err
+	}
+	if fl, ok := l.(*vnet.FakeListener); ok && lc != nil {
+		fl.AcceptFilter = lc.AcceptFilter
+	}
+	return l, nil
 }
